@@ -191,9 +191,13 @@ func (c *Channel) Close() error {
 	// closing (rather than sending on) done means nobody has to be receiving: the read loop may be
 	// blocked in a transport read, parked handing over an error, or already gone. Errs is left
 	// open -- the read loop may still be about to send on it -- and safe to call more than once.
+	verifYield("close:start")
+
 	c.doneOnce.Do(func() {
 		close(c.done)
 	})
+
+	verifYield("close:after-done")
 
 	select {
 	case <-c.exited:
